@@ -2192,7 +2192,9 @@ class StateEngine(object):
                         return next
 
                 def asl_choice_BooleanEquals(value):
-                    return next_if(variable, operator.eq, value, bool)
+                    # A missing Variable is represented by False, which must not compare equal to false.
+                    if not path_match_failed:
+                        return next_if(variable, operator.eq, value, bool)
 
                 def asl_choice_NumericEquals(value):
                     return next_if_numeric(variable, operator.eq, value)
